@@ -660,7 +660,7 @@ func checkWalkShape(c *kit.Ctx, m *storeModel, wf *kit.Func, o *kit.Ob) {
 		case !inLoop:
 			o.Violation("%s neither recurses nor loops over the edge query: it looks one level up only", wf.Name)
 		default:
-			o.Undecided("%s is an iterative ancestor walk; the checker only knows the recursive shape exactly", wf.Name)
+			checkWorklistWalk(c, m, wf, site, o)
 		}
 		return
 	}
@@ -1155,7 +1155,6 @@ func handlerFlow(c *kit.Ctx, m *storeModel, f *kit.Func, msg *types.Var, wcall *
 // checkWalkRoles: direction and argument roles of a recursive ancestry walk.
 func checkWalkRoles(c *kit.Ctx, m *storeModel, ew *pointWriter, wf *kit.Func, site *ast.CallExpr, o *kit.Ob) {
 	info := wf.Info()
-	f := ew.F
 	recursive := false
 	for _, call := range wf.AllCalls(false) {
 		if wf.CalleeFunc(call) == wf {
@@ -1163,7 +1162,25 @@ func checkWalkRoles(c *kit.Ctx, m *storeModel, ew *pointWriter, wf *kit.Func, si
 		}
 	}
 	if !recursive {
-		o.OK("not a recursive walk: judged by the shape obligation")
+		// a work-list walk: the list is seeded with the start and the node taken is compared with the target
+		w := findWorklist(wf)
+		es := edgeQuerySiteOf(c, m, wf, 0)
+		if w == nil || w.start == nil || w.target == nil || es == nil || len(es.Stmts) != 1 || len(es.Stmts[0].Where) != 1 {
+			o.Undecided("not a recursive walk and the start / target of its work list are not recognised")
+			return
+		}
+		dir := es.Stmts[0].Where[0]
+		params := wf.Params()
+		sIdx, tIdx := -1, -1
+		for i, p := range params {
+			if p == w.start {
+				sIdx = i
+			}
+			if p == w.target {
+				tIdx = i
+			}
+		}
+		checkWalkCallRoles(c, m, ew, wf, site, o, dir, sIdx, tIdx)
 		return
 	}
 	// the edge query and the parameter it starts from
@@ -1297,6 +1314,18 @@ func checkWalkRoles(c *kit.Ctx, m *storeModel, ew *pointWriter, wf *kit.Func, si
 			}
 		}
 	}
+	checkWalkCallRoles(c, m, ew, wf, site, o, dir, startIdx, targetIdx)
+}
+
+func scParam(sc *scenario, v *types.Var) func(ast.Expr) bool {
+	return func(e ast.Expr) bool { return sc.objOf(e) == types.Object(v) }
+}
+
+// checkWalkCallRoles: at the writer's call of the walk, the start is the new parent
+// and the target the node (walking upwards; the reverse downwards).
+func checkWalkCallRoles(c *kit.Ctx, m *storeModel, ew *pointWriter, wf *kit.Func, site *ast.CallExpr, o *kit.Ob, dir string, startIdx, targetIdx int) {
+	f := ew.F
+	params := wf.Params()
 	// roles at the call site: which writer parameter is node (down) and parent (up)
 	var node, parent *types.Var
 	// judged in the function that contains the walk call (the writer, or its body function)
@@ -1354,10 +1383,6 @@ func checkWalkRoles(c *kit.Ctx, m *storeModel, ew *pointWriter, wf *kit.Func, si
 // scParam matches an expression that denotes the given parameter of the analysed
 // function, also from inside a helper evaluated inline (parameters resolved to
 // the arguments they are bound to).
-func scParam(sc *scenario, v *types.Var) func(ast.Expr) bool {
-	return func(e ast.Expr) bool { return sc.objOf(e) == types.Object(v) }
-}
-
 // edgeQuerySiteOf finds the SELECT … FROM edges WHERE down/up site executed by f
 // itself or by a same-package helper it calls (two levels).
 func edgeQuerySiteOf(c *kit.Ctx, m *storeModel, f *kit.Func, depth int) *kit.SQLSite {
